@@ -181,7 +181,7 @@ fn visit(path: &[usize], ops: &[Op], local: &mut Local) {
 pub fn run(tier: Tier) -> i32 {
     let mut run = Run::new("C17", tier, "model_checking");
     let depth = tier.pick(4usize, 5);
-    run.rule = format!("model: pool of {SLOTS} value handles + 1 filter handle; ~35 constructors (every kind; valid, invalid and non-UTF-8 arguments; from Zinc / JSON text; from other handles: utc/tz datetime, grid from rows with/without meta) and every list/dict/grid/datetime/filter operation over slot indices, list index {{0,1,7}}, keys {{a,b,invalid UTF-8}}, 5 filter texts. BFS over canonical model states to depth {depth}; every transition = one real extern \"C\" call on a real pool rebuilt by replaying the state's shortest history; after every step: return value = model (documented sentinel on failure), error message retrievable exactly once iff failure, whole pool deep-equal to the model (failure leaves all handles unchanged), borrowed entry pointers dereferenced immediately; after the last step every live handle is inspected with all 18 predicates and 35 getters incl. to_zinc_string / to_json_string against the Rust encoders. Symmetric states merged by constructing into the first free slot");
+    run.rule = format!("model: pool of {SLOTS} value handles + 1 filter handle; ~35 constructors (every kind; valid, invalid and non-UTF-8 arguments; from Zinc / JSON text; from other handles: utc/tz datetime, grid from rows with/without meta) and every list/dict/grid/datetime/filter operation over slot indices, list index {{0,1,7}}, keys {{a,b,invalid UTF-8}}, 5 filter texts. BFS over canonical model states to depth {depth}; every transition = one real extern \"C\" call on a real pool rebuilt by replaying the state's shortest history; after every step: return value = model (documented sentinel on failure), error message retrievable exactly once iff failure, whole pool deep-equal to the model (failure leaves all handles unchanged), borrowed entry pointers dereferenced immediately; after the last step every live handle is inspected with all 18 predicates and 35 getters incl. to_zinc_string / to_json_string against the Rust encoders. Symmetric states merged by constructing into the first free slot; plus one sweep of every string argument of every function with bytes that are not UTF-8 (sentinel, message, arguments unchanged)");
     run.assume("the model is written from the header documentation and the Rust API (Appendix C); equal model pools have equal futures (the API has no other state than the handles and the thread-local last error)");
     crate::engine::quiet_panics();
     let (search, l) = bfs(depth, tier.pick(1_500_000, 6_000_000), &visit);
@@ -189,6 +189,16 @@ pub fn run(tier: Tier) -> i32 {
     run.stats.states = search.states.len() as u64;
     for k in search.states.keys().take(200_000) {
         run.stats.nontrivial(k);
+    }
+    // every string argument of every function, not UTF-8 (state independent)
+    run.stats.evals += 1;
+    match guarded(|| unsafe { crate::model::capi::bad_string_sweep() }) {
+        Ok(Ok(n)) => run.stats.count_n("non-utf8-string-calls", n),
+        Ok(Err(e)) => {
+            let f = e.split(|c| c == ' ' || c == '(').next().unwrap_or("").to_string();
+            run.stats.fail(&format!("non-utf8-argument:{f}"), json!({"bad_string_sweep": true}), e)
+        }
+        Err(p) => run.stats.fail("non-utf8-argument:panic", json!({"bad_string_sweep": true}), p),
     }
     run.note("states_by_depth", json!(search.by_depth));
     run.note("depth", json!(depth));
@@ -210,6 +220,16 @@ pub fn run(tier: Tier) -> i32 {
 }
 
 pub fn replay(case: &J) -> Verdict {
+    if case["bad_string_sweep"] == true {
+        return match guarded(|| unsafe { crate::model::capi::bad_string_sweep() }) {
+            Ok(Ok(_)) => Ok(()),
+            Ok(Err(e)) => {
+                let f = e.split(|c| c == ' ' || c == '(').next().unwrap_or("").to_string();
+                Err((format!("non-utf8-argument:{f}"), e))
+            }
+            Err(p) => Err(("non-utf8-argument:panic".into(), p)),
+        };
+    }
     let path: Vec<usize> = case["path"].as_array().map(|a| a.iter().map(|x| x.as_u64().unwrap() as usize).collect()).unwrap_or_default();
     let ops = match path_to_ops(&path) {
         Some(o) => o,
